@@ -9,7 +9,7 @@ From CG Require Import Proofs.CheckSpans Proofs.PipelineSpans Proofs.CapstoneLay
 From CG Require Import Model.BashSem Model.Glob Spec.Lang Spec.ScriptRead Spec.Meaning Spec.Domain Spec.Invocations.
 From CG Require Import Proofs.TreeFacts Proofs.BashScript Proofs.BashCodec Proofs.EmbedEndToEnd Proofs.SubChecks
   Proofs.BashMeaningSub Proofs.BashMeaningMix Proofs.StripFacts Proofs.GlobFacts Proofs.SubBridge Proofs.CapstoneLits Proofs.CapstoneMeaning.
-From CG Require Import Spec.Choice Proofs.CheckProvenance Proofs.CapstoneCommands Proofs.CapstoneChoice.
+From CG Require Import Spec.Choice Spec.Warnings Proofs.CheckProvenance Proofs.CapstoneCommands Proofs.CapstoneChoice.
 From CG Require Import Proofs.CapstoneTotalRun.
 From CGgen Require Import Consts.
 
@@ -198,9 +198,15 @@ Print Assumptions ex_C01_capstone_inhabited.
     - the statements read back from [s] ([ScriptRead.read_stmts]) contain function bodies
       ([SBody]) for exactly the commands of that table, each body verbatim ([cmd_body]: trimmed,
       ":" when empty) -- so every external command the script can run is one of the above.
-    (The converse -- every chosen command of a reachable nonterminal gets a function -- is not
-    stated: it needs "every leaf of the validated tree is on a transition of the minimised
-    automaton", which holds by C02/C03 but is not packaged as a lemma.) *)
+    - conversely, for every nonterminal [x] REACHABLE from the call variants through the chosen
+      plain definitions ([Spec.Warnings.used_names g Bash], the reachability C15 is stated with)
+      for which the specification chooses a command [cm], [cm] is in that table -- hence, by the
+      previous item, has its function in the script.  (Checker half, [reachable_commands]: the
+      resolved table is the fixed point of "replace every reference by its entry", so a path in
+      the grammar carries the command into the validated tree.  Automaton half,
+      [compiled_commands_complete]: every leaf of a tree without empty alternatives occurs in a
+      denoted word, the automaton accepts it (C02 through C03's minimiser), an accepting run uses
+      a transition for each input, [get_commands] lists the command of every transition.) *)
 Theorem C11_compile_bash_commands :
   forall o builtins text s,
     compile_bash o builtins text = Ok s ->
@@ -209,6 +215,8 @@ Theorem C11_compile_bash_commands :
       /\ compile (pick_table (o_pops o)) (o_fuel o) builtins text Bash = Ok (v, c)
       /\ all_tables Bash c (o_main_lits o) (o_sub_lits o) = Ok (nd, a)
       /\ (forall cm, In cm (a_commands a) -> cmd_source builtins g Bash cm)
+      /\ (forall x cm, In x (used_names g Bash) -> Choice.spec builtins g Bash x = ChCommand cm ->
+                       In cm (a_commands a))
       /\ (name_ok (v_command v) -> no_nl (o_sig o) = true ->
           Forall (fun cm => body_ok (cmd_body cm)) (a_commands a) ->
           exists sts,
@@ -224,6 +232,8 @@ Check C11_compile_bash_commands :
       /\ compile (pick_table (o_pops o)) (o_fuel o) builtins text Bash = Ok (v, c)
       /\ all_tables Bash c (o_main_lits o) (o_sub_lits o) = Ok (nd, a)
       /\ (forall cm, In cm (a_commands a) -> cmd_source builtins g Bash cm)
+      /\ (forall x cm, In x (used_names g Bash) -> Choice.spec builtins g Bash x = ChCommand cm ->
+                       In cm (a_commands a))
       /\ (name_ok (v_command v) -> no_nl (o_sig o) = true ->
           Forall (fun cm => body_ok (cmd_body cm)) (a_commands a) ->
           exists sts,
@@ -255,6 +265,22 @@ Example ex_C11_capstone_inhabited :
   end.
 Proof. vm_compute. reflexivity. Qed.
 Print Assumptions ex_C11_capstone_inhabited.
+
+(** Non-vacuity of the converse item: <F> is reached through the plain definition of <A> only; the
+    specification chooses the bash command for it, and the command table has it. *)
+Definition exd_text : string :=
+  "cmd <A>; <A> ::= x <F>; <F@bash> ::= {{{ echo forbash }}}; <F> ::= {{{ echo plain }}};".
+Example ex_C11_converse_inhabited :
+  match Parser.parse exd_text with
+  | Ok g => In "F" (used_names g Bash) /\ Choice.spec builtins g Bash "F" = ChCommand "echo forbash"
+  | _ => False
+  end
+  /\ match compile (fun _ _ => O) 100 builtins exd_text Bash with
+     | Ok (v, c) => get_commands c = Ok ["echo forbash"]
+     | _ => False
+     end.
+Proof. split; vm_compute; [split; [right; left; reflexivity|reflexivity]|reflexivity]. Qed.
+Print Assumptions ex_C11_converse_inhabited.
 
 (** ** C17 / C06 -- the functions of the script terminate
 
